@@ -6,6 +6,11 @@
   The 15 concrete hashes are plugged in at the end (section INSTANCES).
 -/
 import CC.Buffer.Hash
+import CC.Buffer.OutHash
+import CC.JH.C08
+import CC.Groestl.C08
+import CC.Blake.C08
+import CC.Skein.C08
 namespace CC.Thm.C08
 open CC CC.Buffer
 
@@ -128,6 +133,32 @@ theorem instance_history_refines {m : Mode} (I : Instance m μ σ ω) (ops : Lis
   (I.refines.history_refines ops I.refines.start).1
 
 theorem instance_clone_independent {m : Mode} (I : Instance m μ σ ω) (ops : List SOp) :
+    (I.machine.runS I.machine.fresh ops).2 = (Abs.runS I.digest Abs.empty ops).2 :=
+  (I.refines.store_refines ops I.refines.R_fresh).1
+
+/-! ## the same for a concrete model whose operations return `Out` (may panic)
+
+  All 15 models are of this kind (overflow checks of the counters in debug builds, `unwrap`s).  The
+  chaining state of the generic description is `Out σ` — a panic inside the block closure is threaded —
+  so panics are covered by the statements and NO bound on the message length is assumed.
+  `I.machine` is the model's operations lifted to `Out μ` by Kleisli composition
+  (`CC.Buffer.OutInstance.machine`; spelled out per family below as `<family>_machine_ops`). -/
+
+theorem out_instance_chunking {m : Mode} (I : OutInstance m μ σ ω) (pieces : List (List (BitVec 8))) :
+    (pieces.foldl (fun (s : Out μ) p => s >>= fun h => I.update h p) I.start >>= I.finalize)
+      = ((I.start >>= fun h => I.update h pieces.flatten) >>= I.finalize) :=
+  I.chunking pieces
+
+/-- the abstract digest is the model's own one-shot digest. -/
+theorem out_instance_digest {m : Mode} (I : OutInstance m μ σ ω) (bytes : List (BitVec 8)) :
+    I.digest bytes = ((I.start >>= fun h => I.update h bytes) >>= I.finalize) :=
+  I.digest_eq_oneshot bytes
+
+theorem out_instance_history_refines {m : Mode} (I : OutInstance m μ σ ω) (ops : List Op) :
+    (I.machine.run I.start ops).2 = (Abs.run I.digest [] ops).2 :=
+  (I.refines.history_refines ops I.refines.start).1
+
+theorem out_instance_clone_independent {m : Mode} (I : OutInstance m μ σ ω) (ops : List SOp) :
     (I.machine.runS I.machine.fresh ops).2 = (Abs.runS I.digest Abs.empty ops).2 :=
   (I.refines.store_refines ops I.refines.R_fresh).1
 
@@ -315,5 +346,299 @@ Then, with no further proof,
 (the last one is the bridge to C04–C07: it reduces "incremental model = spec" to a statement about
 the one-shot fold).  `Toy.inst` above is a complete worked example (JH-shaped).
 ---------------------------------------------------------------------------------------------- -/
+
+/-! ### How the concrete models are plugged in
+
+All four families' models return `Out` (overflow checks of the byte/block counters in debug builds,
+`unwrap`, `debug_assert!`; Skein's `default` too).  They are therefore plugged in through the
+`Out`-valued form of `Instance`, `CC.Buffer.OutInstance` (CC/Buffer/OutHash.lean): the chaining state
+of the generic description is wrapped as `Out σ` and kept next to the buffer
+(`HState (Out σ)` = `Out σ × BB`), the block closure is strict in it.  This is the "wrap" option, NOT
+a restriction to states below an overflow bound: the theorems below hold for all inputs, all lengths,
+both profiles, and say that a history panics exactly when the model's one-shot digest of the same
+bytes panics (with the same message).  Obligations (all about states `pack c bb`):
+
+  (O1) start_eq    : default = ok (pack init0 (BB.init b))
+  (O2) update_eq   : update (pack c bb) p = the generic update on ⟨ok c, bb⟩, re-packed
+                     (`rfl` for BLAKE and Skein; Grøstl: simulation `Acc.dead` ↔ `Out`; JH: `pre`)
+  (O3) finalize_eq : WF bb → finalize (pack c bb) = H.fin (ok c) (live bb)
+                     (JH `len64PaddingBe_spec`/`padWithIso7816_spec`; Grøstl `len64PaddingBe_spec`;
+                      Skein `padWithZero_spec`; BLAKE, which pads through up to five `input_block`
+                      calls: observational congruence `CC.Blake.C08.finalize_congr`)
+  (O4) reset_eq    : reset (pack c bb) = default             (Grøstl-224/384: the truncated IV)
+  (O5) finreset_eq : finreset = finalize, then default
+
+The per-family instances are in CC/<Family>/C08.lean.  For each family:
+  `<family>_machine_ops`        what the lifted machine is, in terms of the model's own functions
+  `chunking_<family>`           fold of `update` over any pieces, then `finalize` = the model's one-shot `digest`
+  `history_refines_<family>`    every output of any op history = one-shot `digest` of the bytes since the last reset
+  `clone_independent_<family>`  in a store of instances, = one-shot `digest` of the slot's own byte history
+-/
+
+/-! ### JH-224/256/384/512 (`n` is the digest size in bits; the theorems hold for every `n`) -/
+
+section JH
+open CC.Simd CC.JH.Model
+
+/-- what `(CC.JH.C08.inst M p n).machine` is: the model's operations, lifted to outcomes
+    (`update`/`finalize`/`finalize_reset` by Kleisli composition; `reset` also revives a panicked
+    object, as `*self = Self::default()` does; `Out.recover x d` = `x` if it is a value, else `d`). -/
+theorem jh_machine_ops (M : Mach) (p : Profile) (n : Nat) :
+    (CC.JH.C08.inst M p n).machine =
+      { start := .ok (Hasher.new n)
+        update := fun s piece => s >>= fun h => h.update M p piece
+        reset := fun s => Out.recover (s >>= fun h => .ok h.reset) (.ok (Hasher.new n))
+        resetKeep := fun s => Out.recover (s >>= fun h => .ok h.reset) (.ok (Hasher.new n))
+        finalize := fun s => s >>= fun h => h.finalize M p
+        finreset := fun s =>
+          (s >>= fun h => h.finalizeReset M p >>= fun r => .ok r.2,
+           Out.recover (s >>= fun h => h.finalizeReset M p >>= fun r => .ok r.1)
+             (.ok (Hasher.new n))) } := rfl
+
+/-- the generic one-shot digest of the JH instance is the model's `digest`. -/
+theorem jh_digest (M : Mach) (p : Profile) (n : Nat) :
+    (CC.JH.C08.inst M p n).digest = CC.JH.Model.digest M p n := by
+  funext bytes
+  rw [(CC.JH.C08.inst M p n).digest_eq_oneshot bytes]
+  show ((Hasher.new n).update M p bytes >>= fun h => h.finalize M p) = CC.JH.Model.digest M p n bytes
+  unfold CC.JH.Model.digest
+  cases (Hasher.new n).update M p bytes <;> rfl
+
+/-- **chunking, JH**: any way of cutting the message into `update` calls gives the model's one-shot
+    digest (including its outcome when the length counter overflows). -/
+theorem chunking_jh (M : Mach) (p : Profile) (n : Nat) (pieces : List (List (BitVec 8))) :
+    (pieces.foldl (fun (s : Out Hasher) piece => s >>= fun h => h.update M p piece) (.ok (Hasher.new n))
+        >>= fun h => h.finalize M p)
+      = CC.JH.Model.digest M p n pieces.flatten := by
+  rw [← jh_digest]
+  exact (CC.JH.C08.inst M p n).finalize_updates pieces
+
+/-- **history refinement, JH**: every output of any `update|reset|finreset|fin` history is the
+    model's one-shot digest of the bytes absorbed since the last reset. -/
+theorem history_refines_jh (M : Mach) (p : Profile) (n : Nat) (ops : List Op) :
+    ((CC.JH.C08.inst M p n).machine.run (.ok (Hasher.new n)) ops).2
+      = (Abs.run (CC.JH.Model.digest M p n) [] ops).2 := by
+  rw [← jh_digest]
+  exact out_instance_history_refines (CC.JH.C08.inst M p n) ops
+
+/-- **clone independence, JH**: in a store of hashers every output is the one-shot digest of the
+    addressed slot's own byte history. -/
+theorem clone_independent_jh (M : Mach) (p : Profile) (n : Nat) (ops : List SOp) :
+    ((CC.JH.C08.inst M p n).machine.runS (fun _ => .ok (Hasher.new n)) ops).2
+      = (Abs.runS (CC.JH.Model.digest M p n) Abs.empty ops).2 := by
+  rw [← jh_digest]
+  exact out_instance_clone_independent (CC.JH.C08.inst M p n) ops
+
+end JH
+
+/-! ### Grøstl-224/256/384/512 (`v : Variant`; the public types as `CC.Groestl.Model.Any`) -/
+
+section Groestl
+open CC.Groestl.Model
+
+/-- what `CC.Groestl.C08.machine p v` is: the model's operations, lifted to outcomes. -/
+theorem groestl_machine_ops (p : Profile) (v : Variant) :
+    CC.Groestl.C08.machine p v =
+      { start := .ok (Any.default v)
+        update := fun s piece => s >>= fun a => a.update p piece
+        reset := fun s => Out.recover (s >>= fun a => .ok a.reset) (.ok (Any.default v))
+        resetKeep := fun s => Out.recover (s >>= fun a => .ok a.reset) (.ok (Any.default v))
+        finalize := fun s => s >>= fun a => a.finalize p
+        finreset := fun s =>
+          (s >>= fun a => a.finalizeReset p >>= fun r => .ok r.2,
+           Out.recover (s >>= fun a => a.finalizeReset p >>= fun r => .ok r.1)
+             (.ok (Any.default v))) } := by
+  cases v <;> rfl
+
+/-- **chunking, Grøstl** (all four types; `reset` of Grøstl-224/384 re-creates the truncated IV —
+    obligation O4 of the instance). -/
+theorem chunking_groestl (p : Profile) (v : Variant) (pieces : List (List (BitVec 8))) :
+    (pieces.foldl (fun (s : Out Any) piece => s >>= fun a => a.update p piece) (.ok (Any.default v))
+        >>= fun a => a.finalize p)
+      = CC.Groestl.Model.digest p v pieces.flatten := by
+  rw [← CC.Groestl.C08.gdigest_eq]
+  cases v
+  · exact (CC.Groestl.C08.inst224 p).finalize_updates pieces
+  · exact (CC.Groestl.C08.inst256 p).finalize_updates pieces
+  · exact (CC.Groestl.C08.inst384 p).finalize_updates pieces
+  · exact (CC.Groestl.C08.inst512 p).finalize_updates pieces
+
+theorem history_refines_groestl (p : Profile) (v : Variant) (ops : List Op) :
+    ((CC.Groestl.C08.machine p v).run (.ok (Any.default v)) ops).2
+      = (Abs.run (CC.Groestl.Model.digest p v) [] ops).2 := by
+  rw [← CC.Groestl.C08.gdigest_eq]
+  cases v
+  · exact out_instance_history_refines (CC.Groestl.C08.inst224 p) ops
+  · exact out_instance_history_refines (CC.Groestl.C08.inst256 p) ops
+  · exact out_instance_history_refines (CC.Groestl.C08.inst384 p) ops
+  · exact out_instance_history_refines (CC.Groestl.C08.inst512 p) ops
+
+theorem clone_independent_groestl (p : Profile) (v : Variant) (ops : List SOp) :
+    ((CC.Groestl.C08.machine p v).runS (fun _ => .ok (Any.default v)) ops).2
+      = (Abs.runS (CC.Groestl.Model.digest p v) Abs.empty ops).2 := by
+  rw [← CC.Groestl.C08.gdigest_eq]
+  cases v
+  · exact out_instance_clone_independent (CC.Groestl.C08.inst224 p) ops
+  · exact out_instance_clone_independent (CC.Groestl.C08.inst256 p) ops
+  · exact out_instance_clone_independent (CC.Groestl.C08.inst384 p) ops
+  · exact out_instance_clone_independent (CC.Groestl.C08.inst512 p) ops
+
+end Groestl
+
+/-! ### BLAKE-224/256/384/512 (`define_hasher!` with any kit `K`; the four public types are
+    `kit224 M`, `kit256 M`, `kit384 M`, `kit512 M`) -/
+
+section Blake
+open CC.Simd CC.Blake
+
+/-- what `(CC.Blake.C08.inst K p hb).machine` is: the model's operations, lifted to outcomes. -/
+theorem blake_machine_ops {w : Nat} {V : Type} (K : Kit w V) (p : Profile) (hb : 0 < K.buf) :
+    (CC.Blake.C08.inst K p hb).machine =
+      { start := .ok (Hasher.default K)
+        update := fun s piece => s >>= fun h => update K p h piece
+        reset := fun s => Out.recover (s >>= fun h => .ok (reset K h)) (.ok (Hasher.default K))
+        resetKeep := fun s => Out.recover (s >>= fun h => .ok (reset K h)) (.ok (Hasher.default K))
+        finalize := fun s => s >>= fun h => finalize K p h
+        finreset := fun s =>
+          (s >>= fun h => finalizeReset K p h >>= fun r => .ok r.2,
+           Out.recover (s >>= fun h => finalizeReset K p h >>= fun r => .ok r.1)
+             (.ok (Hasher.default K))) } := rfl
+
+theorem blake_digest {w : Nat} {V : Type} (K : Kit w V) (p : Profile) (hb : 0 < K.buf) :
+    (CC.Blake.C08.inst K p hb).digest = digestK K p := by
+  funext bytes
+  exact (CC.Blake.C08.inst K p hb).digest_eq_oneshot bytes
+
+/-- **chunking, BLAKE** (any kit). -/
+theorem chunking_blake {w : Nat} {V : Type} (K : Kit w V) (p : Profile) (hb : 0 < K.buf)
+    (pieces : List (List (BitVec 8))) :
+    (pieces.foldl (fun (s : Out (Hasher w V)) piece => s >>= fun h => update K p h piece)
+        (.ok (Hasher.default K)) >>= fun h => finalize K p h)
+      = digestK K p pieces.flatten := by
+  rw [← blake_digest K p hb]
+  exact (CC.Blake.C08.inst K p hb).finalize_updates pieces
+
+theorem history_refines_blake {w : Nat} {V : Type} (K : Kit w V) (p : Profile) (hb : 0 < K.buf)
+    (ops : List Op) :
+    ((CC.Blake.C08.inst K p hb).machine.run (.ok (Hasher.default K)) ops).2
+      = (Abs.run (digestK K p) [] ops).2 := by
+  rw [← blake_digest K p hb]
+  exact out_instance_history_refines (CC.Blake.C08.inst K p hb) ops
+
+theorem clone_independent_blake {w : Nat} {V : Type} (K : Kit w V) (p : Profile) (hb : 0 < K.buf)
+    (ops : List SOp) :
+    ((CC.Blake.C08.inst K p hb).machine.runS (fun _ => .ok (Hasher.default K)) ops).2
+      = (Abs.runS (digestK K p) Abs.empty ops).2 := by
+  rw [← blake_digest K p hb]
+  exact out_instance_clone_independent (CC.Blake.C08.inst K p hb) ops
+
+/-- the four public types: chunking against `CC.Blake.digest M p v`. -/
+theorem chunking_blake_variants (M : Mach) (p : Profile) (pieces : List (List (BitVec 8))) :
+    (pieces.foldl (fun s piece => s >>= fun h => update (kit224 M) p h piece)
+        (.ok (Hasher.default (kit224 M))) >>= fun h => finalize (kit224 M) p h)
+      = digest M p .b224 pieces.flatten ∧
+    (pieces.foldl (fun s piece => s >>= fun h => update (kit256 M) p h piece)
+        (.ok (Hasher.default (kit256 M))) >>= fun h => finalize (kit256 M) p h)
+      = digest M p .b256 pieces.flatten ∧
+    (pieces.foldl (fun s piece => s >>= fun h => update (kit384 M) p h piece)
+        (.ok (Hasher.default (kit384 M))) >>= fun h => finalize (kit384 M) p h)
+      = digest M p .b384 pieces.flatten ∧
+    (pieces.foldl (fun s piece => s >>= fun h => update (kit512 M) p h piece)
+        (.ok (Hasher.default (kit512 M))) >>= fun h => finalize (kit512 M) p h)
+      = digest M p .b512 pieces.flatten :=
+  ⟨chunking_blake (kit224 M) p (show 0 < 64 by decide) pieces,
+   chunking_blake (kit256 M) p (show 0 < 64 by decide) pieces,
+   chunking_blake (kit384 M) p (show 0 < 128 by decide) pieces,
+   chunking_blake (kit512 M) p (show 0 < 128 by decide) pieces⟩
+
+end Blake
+
+/-! ### Skein-256/512/1024 with any output size `N = n` bytes (`P : Params` with `0 < P.nb`; the
+    three public types are `skein256`, `skein512`, `skein1024`) — the LAZY buffer discipline -/
+
+section Skein
+open CC.Skein.Model
+
+/-- what `(CC.Skein.C08.inst prof P n hb).machine` is: the model's operations, lifted to outcomes. -/
+theorem skein_machine_ops (prof : Profile) (P : Params) (n : Nat) (hb : 0 < P.nb) :
+    (CC.Skein.C08.inst prof P n hb).machine =
+      { start := CC.Skein.Model.default prof P n
+        update := fun s piece => s >>= fun h => update prof P h piece
+        reset := fun s => Out.recover (s >>= fun h => reset prof P n h) (CC.Skein.Model.default prof P n)
+        resetKeep := fun s => Out.recover (s >>= fun h => reset prof P n h) (CC.Skein.Model.default prof P n)
+        finalize := fun s => s >>= fun h => finalize prof P n h
+        finreset := fun s =>
+          (s >>= fun h => finalizeReset prof P n h >>= fun r => .ok r.2,
+           Out.recover (s >>= fun h => finalizeReset prof P n h >>= fun r => .ok r.1)
+             (CC.Skein.Model.default prof P n)) } := rfl
+
+theorem skein_digest (prof : Profile) (P : Params) (n : Nat) (hb : 0 < P.nb) :
+    (CC.Skein.C08.inst prof P n hb).digest = CC.Skein.Model.digest prof P n := by
+  funext bytes
+  rw [(CC.Skein.C08.inst prof P n hb).digest_eq_oneshot bytes]
+  show ((CC.Skein.Model.default prof P n >>= fun h => update prof P h bytes)
+      >>= fun h => finalize prof P n h) = CC.Skein.Model.digest prof P n bytes
+  unfold CC.Skein.Model.digest
+  cases CC.Skein.Model.default prof P n <;> rfl
+
+/-- **chunking, Skein**: the held-back block ("exactly one full block pending") included. -/
+theorem chunking_skein (prof : Profile) (P : Params) (n : Nat) (hb : 0 < P.nb)
+    (pieces : List (List (BitVec 8))) :
+    (pieces.foldl (fun (s : Out Hasher) piece => s >>= fun h => update prof P h piece)
+        (CC.Skein.Model.default prof P n) >>= fun h => finalize prof P n h)
+      = CC.Skein.Model.digest prof P n pieces.flatten := by
+  rw [← skein_digest prof P n hb]
+  exact (CC.Skein.C08.inst prof P n hb).finalize_updates pieces
+
+theorem history_refines_skein (prof : Profile) (P : Params) (n : Nat) (hb : 0 < P.nb) (ops : List Op) :
+    ((CC.Skein.C08.inst prof P n hb).machine.run (CC.Skein.Model.default prof P n) ops).2
+      = (Abs.run (CC.Skein.Model.digest prof P n) [] ops).2 := by
+  rw [← skein_digest prof P n hb]
+  exact out_instance_history_refines (CC.Skein.C08.inst prof P n hb) ops
+
+theorem clone_independent_skein (prof : Profile) (P : Params) (n : Nat) (hb : 0 < P.nb)
+    (ops : List SOp) :
+    ((CC.Skein.C08.inst prof P n hb).machine.runS (fun _ => CC.Skein.Model.default prof P n) ops).2
+      = (Abs.runS (CC.Skein.Model.digest prof P n) Abs.empty ops).2 := by
+  rw [← skein_digest prof P n hb]
+  exact out_instance_clone_independent (CC.Skein.C08.inst prof P n hb) ops
+
+/-- the three public types. -/
+theorem chunking_skein_variants (prof : Profile) (n : Nat) (pieces : List (List (BitVec 8))) :
+    (∀ P ∈ [skein256, skein512, skein1024],
+      (pieces.foldl (fun (s : Out Hasher) piece => s >>= fun h => update prof P h piece)
+          (CC.Skein.Model.default prof P n) >>= fun h => finalize prof P n h)
+        = CC.Skein.Model.digest prof P n pieces.flatten) := by
+  intro P hP
+  have hb : 0 < P.nb := by
+    simp only [List.mem_cons, List.mem_nil_iff, or_false] at hP
+    rcases hP with rfl | rfl | rfl <;> decide
+  exact chunking_skein prof P n hb pieces
+
+end Skein
+
+/-! ### non-vacuity of the instances: chunked runs of official vectors, evaluated (not by the theorems) -/
+
+/-- BLAKE-256 of 72 zero bytes (blake256.blb), fed as 1 + 63 (buffer filled exactly) + 0 + 8 bytes. -/
+example :
+    (match ([[0x00#8], List.replicate 63 0x00#8, [], List.replicate 8 0x00#8].foldl
+        (fun (s : Out (CC.Blake.Hasher 32 (BitVec 128))) piece =>
+          s >>= fun h => CC.Blake.update (CC.Blake.kit256 CC.Simd.Mach.ref) .debug h piece)
+        (.ok (CC.Blake.Hasher.default (CC.Blake.kit256 CC.Simd.Mach.ref)))
+        >>= fun h => CC.Blake.finalize (CC.Blake.kit256 CC.Simd.Mach.ref) .debug h) with
+     | .ok d => d | _ => [])
+    = [0xd4#8, 0x19#8, 0xba#8, 0xd3#8, 0x2d#8, 0x50#8, 0x4f#8, 0xb7#8, 0xd4#8, 0x4d#8, 0x46#8, 0x0c#8,
+       0x42#8, 0xc5#8, 0x59#8, 0x3f#8, 0xe5#8, 0x44#8, 0xfa#8, 0x4c#8, 0x13#8, 0x5d#8, 0xec#8, 0x31#8,
+       0xe2#8, 0x1b#8, 0xd9#8, 0xab#8, 0xdc#8, 0xc2#8, 0x2d#8, 0x41#8] := by decide +kernel
+
+/-- Skein-256-256(0xFF), fed as an empty piece, the byte, an empty piece; then `finalize_reset` and
+    the empty message Skein-256-256("") on the same object. -/
+example :
+    ((CC.Skein.C08.inst .debug CC.Skein.Model.skein256 32 (by decide)).machine.run
+        (CC.Skein.Model.default .debug CC.Skein.Model.skein256 32)
+        [.update [], .update [0xff#8], .update [], .finreset, .fin]).2.map
+      (fun o => match o with | some (.ok d) => hexOfBytes d | _ => "")
+    = ["", "", "", "0b98dcd198ea0e50a7a244c444e25c23da30c10fc9a1f270a6637f1f34e67ed2",
+       "c8877087da56e072870daa843f176e9453115929094c3a40c463a196c29bf7ba"] := by decide +kernel
 
 end CC.Thm.C08
